@@ -814,6 +814,64 @@ static void run_sequence(const struct cfg *c, int maxops)
 		oracle_fail("final destroy of an empty table failed");
 }
 
+/* ------------------------------------------------------------------------------------------ */
+/* oracle-only run at scale: the node counter of a table created WITHOUT CDS_LFHT_AUTO_RESIZE passes powers of two
+ * >= 1024 * (number of split counters) in both directions; contents, count_nodes, traversal and destroy must stay exact
+ * for every flags value (0 and CDS_LFHT_ACCOUNTING), the bucket count must not move.  Nothing is printed for the driver. */
+struct snode { struct cds_lfht_node n; unsigned long key; };
+static int smatch(struct cds_lfht_node *n, const void *k)
+{
+	return caa_container_of(n, struct snode, n)->key == *(const unsigned long *) k;
+}
+static void scale_noauto(void)
+{
+	static const int fl[2] = { 0, CDS_LFHT_ACCOUNTING };
+	const unsigned long N = 40000;
+	struct snode *nodes = calloc(N, sizeof *nodes);
+	int v;
+	if (!nodes) return;
+	for (v = 0; v < 2; v++) {
+		struct cds_lfht *t = _cds_lfht_new_with_alloc(4096, 1, 1UL << 17, fl[v], NULL, &urcu_memb_flavor, NULL, NULL);
+		unsigned long k, seen = 0;
+		long before, after;
+		struct cds_lfht_iter it;
+		struct cds_lfht_node *n;
+		snprintf(g_last, sizeof g_last, "scale run flags=%d", fl[v]);
+		if (!t) oracle_fail("cds_lfht_new(4096,1,2^17,%d) failed", fl[v]);
+		for (k = 0; k < N; k++) {
+			nodes[k].key = k;
+			cds_lfht_node_init(&nodes[k].n);
+			urcu_memb_read_lock();
+			n = cds_lfht_add_unique(t, k * 0x9E3779B97F4A7C15ULL, smatch, &k, &nodes[k].n);
+			urcu_memb_read_unlock();
+			if (n != &nodes[k].n) oracle_fail("scale: add_unique(%lu) found a duplicate in a table that never held the key", k);
+		}
+		urcu_memb_read_lock();
+		cds_lfht_count_nodes(t, &before, &seen, &after);
+		urcu_memb_read_unlock();
+		if (seen != N) oracle_fail("scale: count_nodes = %lu after %lu adds (flags=%d)", seen, N, fl[v]);
+		for (k = 0; k < N; k++) {
+			int rc = -1;
+			urcu_memb_read_lock();
+			cds_lfht_lookup(t, k * 0x9E3779B97F4A7C15ULL, smatch, &k, &it);
+			n = cds_lfht_iter_get_node(&it);
+			if (n) rc = cds_lfht_del(t, n);
+			urcu_memb_read_unlock();
+			if (rc) oracle_fail("scale: key %lu not found / not deletable (flags=%d)", k, fl[v]);
+			if ((k & 8191) == 8191) urcu_memb_synchronize_rcu();
+		}
+		urcu_memb_read_lock();
+		cds_lfht_count_nodes(t, &before, &seen, &after);
+		urcu_memb_read_unlock();
+		if (seen != 0) oracle_fail("scale: %lu nodes left after deleting everything (flags=%d)", seen, fl[v]);
+		if (t->size != 4096) oracle_fail("scale: a table without CDS_LFHT_AUTO_RESIZE changed its size to %lu (flags=%d)", t->size, fl[v]);
+		urcu_memb_synchronize_rcu();
+		if (cds_lfht_destroy(t, NULL)) oracle_fail("scale: destroy of the emptied table failed (flags=%d)", fl[v]);
+	}
+	free(nodes);
+	printf("# scale run without AUTO_RESIZE ok\n");
+}
+
 int main(int argc, char **argv)
 {
 	int nconfigs, nseq, maxops, ci, si;
@@ -842,6 +900,9 @@ int main(int argc, char **argv)
 	g_cfg = g_seq = -1;
 	if (!nohelper)
 		helper_tests(nconfigs ? 200 : 5000);
+	if (nconfigs)
+		scale_noauto();
+	g_last[0] = 0;
 	for (ci = 0; ci < nconfigs; ci++) {
 		struct cfg c;
 		pick_cfg(&c);
